@@ -115,11 +115,15 @@ def run_session(job):
         prog, q, n, input_values, new_ids = op[1], op[2], op[3], op[4], op[5]
         recs = []
 
-        def recording(base, method, digest):
+        def recording(cls, method, digest):
+            """wrap the method ON the class for the duration of the work packages: also a client object that the
+            driver keeps between calls is observed"""
+            orig = getattr(cls, method)
+
             def call(self, ip):
                 pre, o = (os.getcwd(), list(sys.argv)), None
                 try:
-                    r = getattr(base, method)(self, ip)
+                    r = orig(self, ip)
                     o = digest(r)
                     return r
                 except BaseException as e:  # noqa
@@ -127,17 +131,17 @@ def run_session(job):
                     raise
                 finally:
                     recs.append({'pre': pre, 'post': (os.getcwd(), list(sys.argv)), 'out': o, 'path': str(ip.as_file_path())})
-            return type('Recording' + base.__name__, (base,), {method: call})
+            setattr(cls, method, call)
+            return cls, method, orig
 
         def hip_digest(r):
             text = open(r.output_file_path, encoding='UTF-8').read()
             return ['ret', sha(json.dumps(r.result, sort_keys=True, default=str)), False, sha(MASK.sub(r'\1 <masked>', text)), None]
 
-        saved = (MC.GeophiresXClient, MC.HipRaXClient, MC.HipRaClient)
-        MC.GeophiresXClient = recording(saved[0], 'get_geophires_result',
-                                        lambda r: ['ret', digest_result(r), False, *digest_files(r.output_file_path)])
-        MC.HipRaXClient = recording(saved[1], 'get_hip_ra_result', hip_digest)
-        MC.HipRaClient = recording(saved[2], 'get_hip_ra_result', hip_digest)
+        saved = [recording(MC.GeophiresXClient, 'get_geophires_result',
+                           lambda r: ['ret', digest_result(r), False, *digest_files(r.output_file_path)]),
+                 recording(MC.HipRaXClient, 'get_hip_ra_result', hip_digest),
+                 recording(MC.HipRaClient, 'get_hip_ra_result', hip_digest)]
         args = argparse.Namespace(Input_file=paths[q], Code_File={'g': 'GEOPHIRESv3.py', 1: 'hip_ra_x.py', 2: 'HIP_RA.py'}[prog])
         outputs = ['Average Net Electricity Production'] if prog == 'g' else ['Reservoir Volume (reservoir)']
         try:
@@ -149,8 +153,10 @@ def run_session(job):
                     if len(recs) == before:
                         recs.append({'pre': (os.getcwd(), list(sys.argv)), 'post': (os.getcwd(), list(sys.argv)), 'path': '',
                                      'out': ['raised', type(e).__name__, 'before the embedded client was called: ' + str(e)[:150]]})
+                assert len(recs) == before + 1, 'a work package must make exactly one client call'
         finally:
-            MC.GeophiresXClient, MC.HipRaXClient, MC.HipRaClient = saved
+            for cls, method, orig in saved:
+                setattr(cls, method, orig)
         for rec, pid in zip(recs, new_ids):
             paths[pid] = rec['path']
         return [{'cb': enc_dir(r['pre'][0]), 'ab': enc_argv(r['pre'][1]), 'ca': enc_dir(r['post'][0]), 'aa': enc_argv(r['post'][1]),
